@@ -138,7 +138,15 @@ def execute(case, inject):
             obs["calls"].append(call)
             current[i] = call
             try:
-                r = await fn(c["key"])
+                if case.get("in_scope"):
+                    # callers living in their own scopes (one scope per request): the shared invocation belongs to no
+                    # caller's scope - its failure or a caller's departure must not tear another caller's scope down
+                    from haiway import ctx
+
+                    async with ctx.scope(f"caller{i}"):
+                        r = await fn(c["key"])
+                else:
+                    r = await fn(c["key"])
                 obs["results"][i] = ("val", r.inv if isinstance(r, Val) else repr(r), loop.time())
             except CErr as exc:
                 obs["results"][i] = ("err", exc.args[0], loop.time())
@@ -332,7 +340,7 @@ def strategy(tier):
         callers = []
         for _ in range(n):
             callers.append({"key": draw(st.integers(0, nkeys - 1)), "at": draw(st.sampled_from([0, 0, 0.25, 0.5, 0.75, 1, 1.25, 2, 2.5, 3.5]))})
-        case = {"limit": limit, "exp": exp, "method": draw(st.booleans()), "callers": callers, "invs": invs, "inject": None, "bystander": draw(st.integers(0, 2)) == 0}
+        case = {"limit": limit, "exp": exp, "method": draw(st.booleans()), "callers": callers, "invs": invs, "inject": None, "bystander": draw(st.integers(0, 2)) == 0, "in_scope": draw(st.integers(0, 2)) == 0}
         if tier == "thorough" and draw(st.booleans()):
             # generated double fault (single faults are enumerated for every program anyway)
             case["inject"] = [
@@ -385,7 +393,26 @@ def strategy(tier):
             "inject": None,
         }
 
-    return st.one_of(cases(), cases(), cases(), stale_completion(), evict_then_rejoin())
+    @st.composite
+    def two_late(draw):
+        """invocation #0 outlives its expiration and is STILL running while two (or three) further callers of the key
+        arrive one after another: the first of them starts #1, the others must join #1"""
+        exp = draw(st.sampled_from([0.5, 1, 1.5]))
+        d0 = exp + draw(st.sampled_from([2, 3]))
+        late = [exp + 0.25, exp + 0.5] + ([exp + 0.75] if draw(st.booleans()) else [])
+        callers = [{"key": 0, "at": 0}] + [{"key": 0, "at": t} for t in late]
+        return {
+            "limit": draw(st.sampled_from([1, 2])),
+            "exp": exp,
+            "method": draw(st.booleans()),
+            "callers": callers,
+            "invs": [{"dur": d0, "out": draw(st.sampled_from(["value", "exc"]))}, {"dur": draw(st.sampled_from([exp - 0.25, 3])), "out": "value"},
+                     {"dur": 0.5, "out": "value"}, {"dur": 0.5, "out": "value"}],
+            "inject": None,
+            "in_scope": draw(st.booleans()),
+        }
+
+    return st.one_of(cases(), cases(), cases(), stale_completion(), evict_then_rejoin(), two_late())
 
 
 def budget(tier):
